@@ -4,16 +4,17 @@ set -u
 id=$1; w=/tmp/mut_$id; o=/tmp/mutout/$id
 export GOFLAGS=-mod=mod GOPROXY=off
 cd $w || exit 2
-git diff --quiet && { echo "worktree has no change"; exit 2; }
+# start from a clean checkout and the agent's patch.diff (worktrees share refs/stash, agents may have collided)
+git checkout -q -- . ; git clean -fdq
+git apply $o/patch.diff || { echo "patch.diff does not apply to the base commit"; exit 2; }
 git diff > /tmp/verify_$id.diff
-cmp -s <(git diff) $o/patch.diff || echo "note: patch.diff differs from worktree diff (using worktree diff)"
 cp $o/demo_test.go $w/demo_${id,,}_test.go
 name=$(grep -o 'func Test[A-Za-z0-9_]*' $o/demo_test.go | head -1 | sed 's/func //')
 echo "demo test: $name"
 go test -count=1 -run "^$name\$" . > /tmp/verify_$id.with.log 2>&1; with=$?
-git stash -q -- $(git diff --name-only)
+git apply -R /tmp/verify_$id.diff
 go test -count=1 -run "^$name\$" . > /tmp/verify_$id.without.log 2>&1; without=$?
-git stash pop -q
+git apply /tmp/verify_$id.diff
 rm -f $w/demo_${id,,}_test.go
 echo "with patch exit=$with (want !=0), without exit=$without (want 0)"
 go build ./... || { echo "build fails"; exit 1; }
